@@ -76,6 +76,14 @@ def macro_dict_variant(v):
             'textbf': MacrosDef('textbf', False, 1)}
 
 
+def _snip_body_parser(token, nodeargd, arg_parsing_state_delta):
+    from pylatexenc.latexnodes import parsers as P
+    from pylatexenc.macrospec import LatexEnvironmentBodyContentsParser
+    if nodeargd is not None and nodeargd.argnlist and nodeargd.argnlist[0] is not None:
+        return P.LatexVerbatimEnvironmentContentsParser(environment_name='snip')
+    return LatexEnvironmentBodyContentsParser(environmentname='snip')
+
+
 def build_k1(shared_instances=False):
     from pylatexenc import macrospec
     from pylatexenc.latexnodes import (
@@ -101,6 +109,16 @@ def build_k1(shared_instances=False):
             make_body_parser=lambda token, nodeargd, arg_parsing_state_delta:
                 P.LatexVerbatimEnvironmentContentsParser(environment_name='ev')),
         macrospec.EnvironmentSpec('evv', ['v']),
+        # environments whose body sees extra definitions (delta objects stored on the spec)
+        macrospec.EnvironmentSpec('xa', [], body_parsing_state_delta=macrospec.ParsingStateDeltaExtendLatexContextDb(
+            extend_latex_context=dict(macros=[macrospec.MacroSpec('xam', ['[', '{'])]))),
+        macrospec.EnvironmentSpec('xb', [], body_parsing_state_delta=macrospec.ParsingStateDeltaExtendLatexContextDb(
+            extend_latex_context=dict(macros=[macrospec.MacroSpec('xbm', ['{', '{']),
+                                              macrospec.MacroSpec('xam', ['{'])]))),
+        macrospec.EnvironmentSpec('xs', ['['], body_parsing_state_delta=macrospec.ParsingStateDeltaExtendLatexContextDb(
+            extend_latex_context=dict(macros=[macrospec.MacroSpec('step', ['[', '{'])]))),
+        # the body parser depends on the parsed arguments of this occurrence
+        macrospec.EnvironmentSpec('snip', ['['], make_body_parser=_snip_body_parser),
     ]
     specials = [macrospec.SpecialsSpec('~'), macrospec.SpecialsSpec('``'), macrospec.SpecialsSpec("''"),
                 macrospec.SpecialsSpec('&'), macrospec.SpecialsSpec('\n\n'),
@@ -115,10 +133,11 @@ def build_k1(shared_instances=False):
         macrospec.MacroSpec('lgm', args_parser=macrospec.MacroStandardArgsParser(
             '{{', args_math_mode=[True, False])),
         macrospec.std_macro('sm', True, 2),
-        macrospec.std_macro('smm', '*[{'),
+        macrospec.std_macro('smm', '*[{' if not shared_instances else '*{'),
         macrospec.MacroSpec('me', ['e{^_}']),
     ], environments=[
-        macrospec.std_environment('se', '[{', is_math_mode=True),
+        # the same helper call with another flag in the other recipe: helper results must not be shared
+        macrospec.std_environment('se', '[{', is_math_mode=(not shared_instances)),
         macrospec.EnvironmentSpec('lverb', args_parser=macrospec.VerbatimArgsParser(
             verbatim_arg_type='verbatim-environment', verbatim_environment_name='lverb')),
     ])
@@ -393,6 +412,14 @@ class DocGen(object):
             if c == 3:
                 return '\\begin{evv}' + self.arg('v', d) + self.content(d) + '\\end{evv}'
             if c == 4:
+                if rng.random() < 0.6:
+                    inner = rng.choice(['\\begin{xs}\\step[x]{mix}\\xam{p}{q}\\end{xs}', '\\xam[o]{a}{b} \\xbm{c}{d}',
+                                        '\\begin{xs}[o]\\step{s} \\xam[t]{u}{v}\\end{xs} \\step[w]{z}'])
+                    o = rng.choice(['xa', 'xb', 'xs'])
+                    return '\\begin{%s}%s\\end{%s}' % (o, inner, o)
+                if rng.random() < 0.5:
+                    return rng.choice(['\\begin{snip}[raw]\\mb{x} $y$ %c\n\\end{snip}',
+                                       '\\begin{snip}\\mb{x} $y$ %c\n\\end{snip}'])
                 return '!v' + self.arg('v', d)
             return '\\begin{unk}' + self.content(d) + '\\end{unk}'
         if x < 0.90:
